@@ -11,6 +11,7 @@ import (
 	"math"
 	"math/big"
 	"strconv"
+	"sort"
 	"strings"
 
 	"golang.org/x/tools/go/ssa"
@@ -333,7 +334,7 @@ func (e *Env) eval(ex Expr) SVal {
 		for _, qv := range n.Vars {
 			bnames = append(bnames, c.vars[qv.Name].T.S)
 		}
-		if pat := explicitPattern(body.S, bnames); pat != "" {
+		if pat := explicitPattern(body.S, bnames, n.Pat1); pat != "" {
 			return boolV(T(SBool, "(%s (%s) (! %s :pattern (%s)))", q, strings.Join(binders, " "), body.S, pat))
 		}
 		return boolV(T(SBool, "(%s (%s) %s)", q, strings.Join(binders, " "), body.S))
@@ -704,6 +705,17 @@ func (e *Env) evalCall(n *ECall) SVal {
 			}
 		}
 		sfail("has() on non-map %s", n)
+	case "raw": // raw(m, k): the value stored for k in Go map m WITHOUT the "absent => zero value" case split; meaningful only under has(m, k).
+		// It exists because the case split is an `ite`, and a term with an ite cannot serve as a quantifier pattern.
+		m := arg(0)
+		if m.Ty.Kind == "go" {
+			if u, ok := m.Ty.Go.Underlying().(*types.Map); ok {
+				k := e.coerce(arg(1), goT(u.Key()))
+				mv, _, mvS, _, _, _ := x.mapHeaps(u)
+				return SVal{T: sel(sel(x.heapGet(e.cur, mv, mvS), m.T), k.T), Ty: goT(u.Elem())}
+			}
+		}
+		sfail("raw() on non-map %s", n)
 	case "empty":
 		m := arg(0)
 		if u, ok := m.Ty.Go.Underlying().(*types.Map); ok {
@@ -837,6 +849,28 @@ func (e *Env) evalCall(n *ECall) SVal {
 			sfail("local() needs an identifier inside a function contract")
 		}
 		a := x.localByNameAt(e.fn, id.Name, e.at)
+		if len(n.Args) == 2 {
+			// local(name, K): the K-th declaration of that name in source order (several scopes of one function may reuse a name)
+			kl, ok := n.Args[1].(*EInt)
+			if !ok {
+				sfail("local(name, K) needs a literal ordinal")
+			}
+			var all []*ssa.Alloc
+			for _, b := range e.fn.Blocks {
+				for _, in := range b.Instrs {
+					if al, ok := in.(*ssa.Alloc); ok && al.Comment == id.Name && al.Pos().IsValid() {
+						all = append(all, al)
+					}
+				}
+			}
+			sort.Slice(all, func(i, j int) bool { return all[i].Pos() < all[j].Pos() })
+			a = nil
+			for i, al := range all {
+				if fmt.Sprint(i+1) == kl.V {
+					a = al
+				}
+			}
+		}
 		if a == nil {
 			sfail("no local named %s", id.Name)
 		}
@@ -1021,8 +1055,8 @@ func (e *Env) evalCall(n *ECall) SVal {
 
 // explicitPattern: for quantifiers with several bound variables one of which only occurs as a slice index (inside bvadd),
 // the solvers' automatic trigger inference finds nothing; give the smallest select/UF term containing all bound variables.
-func explicitPattern(body string, vars []string) string {
-	if len(vars) < 2 || !strings.Contains(body, "(bvadd ") {
+func explicitPattern(body string, vars []string, single bool) string {
+	if (len(vars) < 2 && !single) || !strings.Contains(body, "(bvadd ") {
 		return ""
 	}
 	needs := false
